@@ -276,7 +276,7 @@ def run(ctx):
         rcls = next((x for x in rtree.body if isinstance(x, ast.ClassDef) and x.name == 'SqlalchemyRender'), None)
         te_ = next((m for m in (rcls.body if rcls else []) if isinstance(m, ast.FunctionDef) and m.name == 'to_expression'), None)
         if te_ is not None:
-            subj = te_.args.args[1].arg
+            subj = subj0 = te_.args.args[1].arg
             links = []
             for first_ in [n for n in te_.body if isinstance(n, ast.If)]:
                 cur_ = first_
@@ -286,7 +286,7 @@ def run(ctx):
             for node_ in links:
                 t_ = node_.test
                 names_ = []
-                if isinstance(t_, ast.Call) and dotted(t_.func) == 'isinstance' and len(t_.args) == 2 and norm(t_.args[0]) == subj:
+                if isinstance(t_, ast.Call) and dotted(t_.func) == 'isinstance' and len(t_.args) == 2 and norm(t_.args[0]) == subj0:
                     names_ = [(dotted(x) or '').split('.')[-1] for x in (t_.args[1].elts if isinstance(t_.args[1], ast.Tuple) else [t_.args[1]])]
                 for cn_ in names_:
                     ci_ = model.resolve(cn_) if cn_ in model.classes else None
@@ -294,10 +294,25 @@ def run(ctx):
                     if b_ is None:
                         continue
                     visited_ = {s_.field for s_ in b_.sites}
-                    for st_ in node_.body:
+                    TRANSLATORS_ = ('to_expression', 'prepare_select', 'to_function', 'prepare_case', 'to_order_by', 'to_table')
+                    # the branch body, and the bodies of the methods the branch hands the node itself to (`return self.to_window_function(t)`), each with the
+                    # name the node has there
+                    regions_ = [(node_.body, subj0)]
+                    meths_ = {m.name: m for m in rcls.body if isinstance(m, ast.FunctionDef)}
+                    for stmts0_, sname0_ in list(regions_):
+                        for st0_ in stmts0_:
+                            for c0_ in ast.walk(st0_):
+                                if isinstance(c0_, ast.Call) and isinstance(c0_.func, ast.Attribute) and norm(c0_.func.value) == 'self' and c0_.func.attr in meths_ \
+                                        and c0_.func.attr not in TRANSLATORS_ and any(isinstance(a0_, ast.Name) and a0_.id == sname0_ for a0_ in c0_.args):
+                                    m0_ = meths_[c0_.func.attr]
+                                    k0_ = next(i for i, a0_ in enumerate(c0_.args) if isinstance(a0_, ast.Name) and a0_.id == sname0_)
+                                    if k0_ + 1 < len(m0_.args.args):
+                                        regions_.append((m0_.body, m0_.args.args[k0_ + 1].arg))
+                    for stmts_, subj in regions_:
+                      for st_ in stmts_:
                         for c_ in ast.walk(st_):
                             if isinstance(c_, ast.Call) and isinstance(c_.func, ast.Attribute) and norm(c_.func.value) == 'self' \
-                                    and c_.func.attr in ('to_expression', 'prepare_select', 'to_function', 'prepare_case', 'to_order_by', 'to_table'):
+                                    and c_.func.attr in TRANSLATORS_:
                                 for a_ in c_.args:
                                     base_ = a_
                                     while isinstance(base_, ast.Subscript):
